@@ -452,11 +452,21 @@ func sampleValue(k int) interface{} {
 		map[string]interface{}{"k": []int{1}}, json.Number("12"), struct{ X string }{"<&>"},
 		int32(0x4e16), 'x', int32(-1), int32(0xD800), int32(0x110000), uint16(7), "",
 		errors.New("plain error"), fmt.Errorf("wrapped: %w", io.EOF), strings.NewReplacer(), &struct{ P int }{5},
+		float32(0.1), float32(3.14), float32(1.31), float64(0.1), 1e21, float32(1e10), int8(-128), uint64(1) << 63, uintptr(7),
+		complex64(complex(0.1, -2)), namedString("named"), namedFloat(0.1), (*namedPtr)(nil), []float32{0.1, 2.5}, time2{3},
 	}
 	return samples[k%len(samples)]
 }
 
-const nSamples = 35
+const nSamples = 50
+
+type namedString string
+type namedFloat float32
+type namedPtr struct{ X int }
+type time2 struct{ N int } // a type with both String and Error: String must win
+
+func (t time2) String() string { return fmt.Sprintf("S%d", t.N) }
+func (t time2) Error() string  { return fmt.Sprintf("E%d", t.N) }
 
 func (x *Exec) buildItem(spec string) interface{} {
 	parts := strings.Split(spec, ":")
